@@ -93,6 +93,8 @@ STMTS = [
     ("stmt_expr_stmts_only4", "may", "({ ReV = 1; RxV = 2; RyV = 3; i++; });", [W % "Re", W % "Rx", W % "Ry", 'SETL("i", INC']),
     ("stmt_expr_stmts_only2", "may", "({ ReV = 1; RxV = 2; });", [W % "Re", W % "Rx"]),
     ("macro_stmt", "may", "HEX_SETROUND(hi, RZ_FLOAT_RMODE_RTZ);", ["HEX_SETROUND("]),
+    ("ternary_void_calls", "may", "PvV ? trap(0, 1) : set_usr_field(bundle, HEX_REG_FIELD_USR_OVF, 1);", ["hex_trap(", "hex_set_usr_field("]),
+    ("ternary_void_calls2", "may", "(RtV > 0) ? set_usr_field(bundle, HEX_REG_FIELD_USR_OVF, 1) : set_usr_field(bundle, HEX_REG_FIELD_USR_LPCFG, 0);", ["hex_set_usr_field("]),
     ("stmt_expr_three_stmts", "may", "ReV = ({ RxV = 1; RyV = 2; RtV; });", [W % "Re", W % "Rx", W % "Ry"]),
 ]
 EXPRS = [
@@ -204,14 +206,27 @@ def run(tier, replay=None):
     viol, cnt = [], collections.Counter()
     table = collections.defaultdict(collections.Counter)
     known_hits = collections.Counter()
-    for fmt in ("READ_STATEMENTS", "EXEC_CLASSES"):
-        c = rc.compiler(fmt)
+    from rzilcompiler.Parser import ParsedInsn
+
+    def via_transform_insn(c, tree, src):
+        """the other public entry point: one instruction name asked for again and again with short-lived parse results"""
+        try:
+            with rc.quiet():
+                ri = c.transform_insn("GEN_c15", ParsedInsn("GEN_c15", [tree], [src]))
+            return ("ok", ri.rzil[0], None)
+        except Exception as e:
+            inner = getattr(e, "orig_exc", e)
+            return ("exc", type(inner).__name__, str(inner)[:160])
+
+    LAYOUTS = ("READ_STATEMENTS", "EXEC_CLASSES", "TRANSFORM_INSN")
+    for fmt in LAYOUTS:
+        c = rc.compiler(fmt) if fmt != "TRANSFORM_INSN" else rc.compiler("READ_STATEMENTS", fresh=True)
         todo = []
         for p, pr in zip(ps, parsed):
             if pr[0] != "ok":
                 p[fmt] = ("rejected", "parse: " + pr[1])
                 continue
-            r = rc.transform_tree(c, pr[1])
+            r = rc.transform_tree(c, pr[1]) if fmt != "TRANSFORM_INSN" else via_transform_insn(c, pr[1], p["src"])
             if r[0] != "ok":
                 p[fmt] = ("rejected", f"{r[1]}: {r[2]}")
             else:
@@ -221,7 +236,7 @@ def run(tier, replay=None):
         for p, rep in zip(todo, reps):
             p[fmt + "_report"] = textcheck.parse_report(rep)
     for p in ps:
-        for fmt in ("READ_STATEMENTS", "EXEC_CLASSES"):
+        for fmt in LAYOUTS:
             outcome, detail = p[fmt]
             cnt["evaluations"] += 1
             table[p["construct"]][outcome] += 1
@@ -254,7 +269,8 @@ def run(tier, replay=None):
                 continue
             viol.append({"what": what, "program": p["src"], "construct": p["construct"], "class": p["class"], "must": p["must"],
                          "emitted": detail if outcome == "accepted" else None,
-                         "reproduce": f"Compiler(ArchEnum.HEXAGON, CodeFormat.{fmt}).compile_c_stmt({p['src']!r})"})
+                         "reproduce": (f"Compiler(ArchEnum.HEXAGON, CodeFormat.{fmt}).compile_c_stmt({p['src']!r})" if fmt != "TRANSFORM_INSN" else
+                                       f"one Compiler: transform_insn('GEN_c15', ParsedInsn('GEN_c15', [parser.parse(src)], [src])) for every placement of the run in order, this one is {p['src']!r}")})
     for k in known_for("C15"):
         if k.get("scope") == "construct":
             if known_hits[k["id"]]:
